@@ -607,6 +607,10 @@ func genC19(t *rapid.T) C19Case {
 	c.Chunk = rapid.SampledFrom([]int{0, 0, 1, 7, 100}).Draw(t, "chunk")
 	ids := []int32{1, 2, 3, int32(packetid.ClientboundPacketIDGuard) - 1, 0x2b, 0x6c}
 	nc := rapid.IntRange(0, pbt.Pick(40, 200)).Draw(t, "ntoclient")
+	burst := rapid.IntRange(0, 7).Draw(t, "burst") == 3 // a few hundred small packets in a row: deep queues
+	if burst {
+		nc = rapid.IntRange(100, 300).Draw(t, "ntoclient_burst")
+	}
 	inBundle := false
 	for i := 0; i < nc; i++ {
 		if rapid.IntRange(0, 6).Draw(t, "delim") == 3 {
@@ -614,14 +618,25 @@ func genC19(t *rapid.T) C19Case {
 			inBundle = !inBundle
 			continue
 		}
-		c.ToClient = append(c.ToClient, C19Pkt{ID: rapid.SampledFrom(ids).Draw(t, "id"), Len: genPktLen(t, c.Threshold), Seed: rapid.Byte().Draw(t, "seed")})
+		p := C19Pkt{ID: rapid.SampledFrom(ids).Draw(t, "id"), Len: genPktLen(t, c.Threshold), Seed: rapid.Byte().Draw(t, "seed")}
+		if burst && p.Len > 300 {
+			p.Len %= 300
+		}
+		c.ToClient = append(c.ToClient, p)
 	}
 	if inBundle {
 		c.ToClient = append(c.ToClient, C19Pkt{ID: 0})
 	}
 	ns := rapid.IntRange(0, pbt.Pick(40, 200)).Draw(t, "ntoserver")
+	if burst {
+		ns = rapid.IntRange(100, 300).Draw(t, "ntoserver_burst")
+	}
 	for i := 0; i < ns; i++ {
-		c.ToServer = append(c.ToServer, C19Pkt{ID: int32(rapid.IntRange(0, int(packetid.ServerboundPacketIDGuard)-1).Draw(t, "sid")), Len: genPktLen(t, c.Threshold), Seed: rapid.Byte().Draw(t, "seed")})
+		p := C19Pkt{ID: int32(rapid.IntRange(0, int(packetid.ServerboundPacketIDGuard)-1).Draw(t, "sid")), Len: genPktLen(t, c.Threshold), Seed: rapid.Byte().Draw(t, "seed")}
+		if burst && p.Len > 300 {
+			p.Len %= 300
+		}
+		c.ToServer = append(c.ToServer, p)
 	}
 	nh := rapid.IntRange(0, 8).Draw(t, "nhandlers")
 	if rapid.IntRange(0, 5).Draw(t, "manyhandlers") == 3 {
